@@ -158,6 +158,20 @@ func FuzzWKTRoundTrip(f *testing.F) {
 		if len(recipe) > 0 {
 			r := &rd{b: recipe}
 			g2 := r.geom(0)
+			// "nested to any depth": an odd byte asks for up to 71 further collection levels
+			if r.byte()&1 == 1 {
+				sib := r.byte()
+				for n := r.byte() % 72; n > 0; n-- {
+					switch sib % 3 {
+					case 1:
+						g2 = orb.Collection{orb.LineString{}, g2}
+					case 2:
+						g2 = orb.Collection{g2, orb.Point{float64(n), 1e-5}}
+					default:
+						g2 = orb.Collection{g2}
+					}
+				}
+			}
 			if inDomain(g2) != nil {
 				return
 			}
